@@ -1,7 +1,7 @@
 /-
   `Inv3` (place of every task, futures, global tickets) is inductive — part A.
 -/
-import Babylon.Exec.Inv3
+import Babylon.Exec.Inv3X
 import Babylon.Exec.Inv2Pres
 
 namespace Babylon.Exec
@@ -13,16 +13,16 @@ macro "p_close" : tactic => `(tactic| (
   first
     | done
     | grind [upd, Pc.role, Pc.carry, Pc.exec, claimPc, dispatchPc, PopCtx.onEmpty, PopCtx.role, PopCtx.queue, afterLdRunS,
-        afterLdRunB, afterJoinW, role_chk, popctx_role,
+        afterLdRunB, afterJoinW, role_chk, popctx_role, Pc.pushed,
         Q.itemAt_setSt, Q.stAt_setSt, Q.itemAt_take, Q.stAt_take, Q.length_take, Q.length_setSt, Q.popIdx_setSt, Q.popIdx_take,
         Q.itemAt_claim, Q.stAt_claim, Q.popIdx_claim, Q.length_claim, Q.itemAt_bump, Q.stAt_bump, Q.popIdx_bump, Q.length_bump,
-        Item.isTask]))
+        Item.isTask, Q.itemAt_some_lt, Q.stAt_some_lt]))
 
 section
 variable {c : Cfg} {s s' : State} {t : Nat} {lb : Lbl}
 
 set_option maxHeartbeats 4000000 in
-theorem Inv3.step_a1 (I : Inv1 c s) (J : Inv2 c s) (K : Inv3 c s) (h : StepCase c s t lb s') :
+theorem Inv3.step_a1 (I : Inv1 c s) (J : Inv2 c s) (K : Inv3 c s) (X : Inv3X s) (h : StepCase c s t lb s') :
     ∀ id i, s'.loc id = .gq i → s'.g.itemAt i = some (.task id) ∧ s'.g.stAt i ≠ some .free := by
   intro id i hl
   have a1 := K.a1
@@ -43,7 +43,7 @@ theorem Inv3.step_a1 (I : Inv1 c s) (J : Inv2 c s) (K : Inv3 c s) (h : StepCase 
   have hx15 := role_afterSize c
   have hk : ∀ p k, s.pc t = .gPub p k → k.carry = none := by
     intro p k hp; rw [hp] at hwf; exact carry_cont c none k hwf
-  clear I J K hwf
+  clear I J K X hwf
   cases h
   case popClaim ctx i0 k0 nr cl hpc hq hi hcell hfull =>
     have hit := (isTask_iff cl.item).mp (l4 k0 i0 cl hcell)
@@ -71,7 +71,7 @@ theorem Inv3.step_a1 (I : Inv1 c s) (J : Inv2 c s) (K : Inv3 c s) (h : StepCase 
   all_goals (trace_state; sorry)
 
 set_option maxHeartbeats 4000000 in
-theorem Inv3.step_a2 (I : Inv1 c s) (J : Inv2 c s) (K : Inv3 c s) (h : StepCase c s t lb s') :
+theorem Inv3.step_a2 (I : Inv1 c s) (J : Inv2 c s) (K : Inv3 c s) (X : Inv3X s) (h : StepCase c s t lb s') :
     ∀ id k i, s'.loc id = .lq k i → (s'.l k).itemAt i = some (.task id) ∧ (s'.l k).stAt i ≠ some .free := by
   intro id k i hl
   have a2 := K.a2
@@ -92,7 +92,7 @@ theorem Inv3.step_a2 (I : Inv1 c s) (J : Inv2 c s) (K : Inv3 c s) (h : StepCase 
   have hx15 := role_afterSize c
   have hk : ∀ p k, s.pc t = .gPub p k → k.carry = none := by
     intro p k hp; rw [hp] at hwf; exact carry_cont c none k hwf
-  clear I J K hwf
+  clear I J K X hwf
   cases h
   case popClaim ctx i0 k0 nr cl hpc hq hi hcell hfull =>
     have hit := (isTask_iff cl.item).mp (l4 k0 i0 cl hcell)
@@ -120,7 +120,7 @@ theorem Inv3.step_a2 (I : Inv1 c s) (J : Inv2 c s) (K : Inv3 c s) (h : StepCase 
   all_goals (trace_state; sorry)
 
 set_option maxHeartbeats 4000000 in
-theorem Inv3.step_a3 (I : Inv1 c s) (J : Inv2 c s) (K : Inv3 c s) (h : StepCase c s t lb s') :
+theorem Inv3.step_a3 (I : Inv1 c s) (J : Inv2 c s) (K : Inv3 c s) (X : Inv3X s) (h : StepCase c s t lb s') :
     ∀ id t', s'.loc id = .hand t' → (s'.pc t').carry = some id ∨ (s'.pc t').exec = some id := by
   intro id t' hl
   have a3 := K.a3
@@ -143,7 +143,7 @@ theorem Inv3.step_a3 (I : Inv1 c s) (J : Inv2 c s) (K : Inv3 c s) (h : StepCase 
   have hx15 := role_afterSize c
   have hk : ∀ p k, s.pc t = .gPub p k → k.carry = none := by
     intro p k hp; rw [hp] at hwf; exact carry_cont c none k hwf
-  clear I J K hwf
+  clear I J K X hwf
   cases h
   case popClaim ctx i0 k0 nr cl hpc hq hi hcell hfull =>
     have hit := (isTask_iff cl.item).mp (l4 k0 i0 cl hcell)
